@@ -19,3 +19,4 @@ open Pandora.C03 Pandora.Blocks
 #print axioms Pandora.C03Kernels.toDisp_generated
 #print axioms Pandora.C03Kernels.toDisp_generated_cv
 #print axioms Pandora.C03Kernels.toDisp_generated_spec
+#print axioms Pandora.C03Kernels.carried_fields
